@@ -26,7 +26,7 @@ ASSUMPTIONS = [
 PROFILE = scenario.profile(maxD=3, extra_budget=(0, 70), cons_x0=("margin",), p_cons=0.15,
                            noise_modes=("auto", "declared", "specified", "specified"), specified_spellings=("both", "alone"),
                            final_samples=(0, 1, 1, 2, 5, 10), max_iter_choices=(None, None, None, 2, 3), tol_mesh_choices=(None,),
-                           c_classes=("inside", "inside", "hardbox", "on_bound", "outside", "at_x0"))
+                           c_classes=("inside", "inside", "hardbox", "on_bound", "outside", "at_x0"), p_warm=0.2)
 N = {"quick": 256, "thorough": 4000}
 N_DET = {"quick": 128, "thorough": 2000}
 
